@@ -230,7 +230,9 @@ class XsdBuilders:
             elem.append(Element(nm.XSD_ANY, ANY_ATTRIB))
 
         elem.text = elem[0].tail = '\n  '
-        return self.group_class(elem, schema, parent)
+        group = self.group_class(elem, schema, parent)
+        group.mixed = True  # any content includes character data
+        return group
 
     def create_empty_content_group(self, parent: Union[XsdComplexType, XsdGroup],
                                    model: str = 'sequence', **attrib: Any) -> XsdGroup:
